@@ -250,7 +250,7 @@ Lemma to_entry_S : forall SC f c busy n,
       let '(i, ei) := io_entry SC f c busy KInput s_input input in
       let '(o, eo) := io_entry SC f c busy KOutput s_output output in
       let r := match i, o with
-               | None, None => if action then None else Some (None, None)
+               | None, None => Some (None, None)
                | _, _ => Some (i, o)
                end in
       (Entry name KDir TSUnset TSUnset [] [] None [] None None (Some []) r, ei || eo)
